@@ -110,13 +110,13 @@ class C18(Suite):
         # 1. exhaustive small shapes: files x records x gaps x start x lookahead, one load per step
         yield from self.exhaustive(2 if quick else 3, rng, quick)
         # 2. seeded random, in scope
-        for _ in range(4000 if quick else 110000):
+        for _ in range(14000 if quick else 160000):
             yield self.random_case(rng)
         # 3. malformed / out-of-scope stream and the known class (correspondence + reduced oracle)
-        for _ in range(1200 if quick else 30000):
+        for _ in range(4000 if quick else 45000):
             yield self.random_case(rng, malformed=True)
         # 4. natural ordering of names
-        for _ in range(400 if quick else 6000):
+        for _ in range(1000 if quick else 10000):
             yield self.natural_case(rng)
 
     def witnesses(self):
@@ -197,8 +197,12 @@ class C18(Suite):
         hist = rng.choice([980, 1000, 1010, t - 10, t, t + 10, rng.randint(990, max(t, 1000) + 20)])
         la = rng.choice([None, None, 0, 10, 20, 50])
         loads, c = [], hist
+        restricted = rng.random() < 0.4           # most schedules carry no limit / upcoming at all
         for _ in range(rng.randint(2, 12)):
-            loads.append([c, rng.choice([None] * 6 + [0, 1, 2]), rng.choice([None] * 8 + [c, c - 10, c + 10])])
+            if restricted:
+                loads.append([c, rng.choice([None] * 4 + [0, 1, 2]), rng.choice([None] * 5 + [c, c - 10, c + 10])])
+            else:
+                loads.append([c, None, None])
             c += rng.choice([0, 10, 10, 10, 20, 30, 50, 100])
             if malformed and rng.random() < 0.05:
                 c = max(0, c - rng.choice([10, 30]))
@@ -518,17 +522,12 @@ class C18(Suite):
         if any(f.get("copies") for f in case["files"]):
             feats.append("copies")
         kinds = {ln[0] if ln[0] != "r" else ("r" if isinstance(ln[2], dict) else "p") for f in case["files"] for ln in f["lines"]}
-        if "x" in kinds:
-            feats.append("corrupt-ts")
-        if "p" in kinds:
-            feats.append("bad-payload")
-        if kinds & {"c", "b"}:
-            feats.append("comment")
+        if kinds & {"x", "p", "c", "b"}:
+            feats.append("dirty")
         if any(l[1] is not None or l[2] is not None for l in case["loads"]):
-            feats.append("limit/upcoming")
-        if case.get("la"):
-            feats.append("lookahead")
-        return "%s:%dfiles:%s" % (scope, len(case["files"]), "+".join(feats) or "plain")
+            feats.append("limit")
+        state = "hang" if "hang" in out else out.rsplit(" | ", 1)[-1].split(" ")[1] if " " in out else "?"
+        return "%s:%dfiles:%s:end=%s" % (scope, len(case["files"]), "+".join(feats) or "plain", state)
 
     def shrink(self, c):
         if "natural" in c:
